@@ -2,7 +2,7 @@ IMPORTS = """From Coq Require Import List Bool Arith NArith Lia Relations Permut
 Import ListNotations.
 From BB Require Import BN Brute SpaceFacts TrapFacts PercolateFacts AttractorFacts Diagram Invariants Checks Filter
   Strict PetriNet Control Meta FilterFacts PetriNetFacts TrappistFacts DiagramStruct DiagramSem1 DiagramCache
-  DiagramDepth DiagramComplete Termination ControlFacts MetaFacts Candidates StrictFacts MinExpandFacts CandidatesFacts SymbolicTest SymbolicTestFacts Signed ReductionFacts ControlFacts2 Main Blocks BlocksFacts."""
+  DiagramDepth DiagramComplete Termination ControlFacts MetaFacts Candidates StrictFacts MinExpandFacts CandidatesFacts SymbolicTest SymbolicTestFacts Signed ReductionFacts ControlFacts2 Main Blocks BlocksFacts ObsFacts OwnerFacts CandidatesTerm."""
 
 EX_NET = """
 (* non-vacuity: two bistable switches; x0'=x1, x1'=x0, x2'=x3, x3'=x2 *)
@@ -16,8 +16,10 @@ SPEC["C01"] = dict(title="Reported attractor seeds correspond one-to-one to the 
 Model: Filter.compute_attractors_filter is the model of compute_attractors_symbolic (the exact
 reachability filter); the candidate list it receives is required to cover the node's attractors
 (property C08).  Checks.check_seeds is the predicate evaluated on the implementation's seeds.
-PARTIAL: the owner of an attractor is unique only by the correspondence run (global verdict); block,
-source-SCC and attractor-seed expansion are not modelled (their seeds are judged by check_seeds only).""",
+OwnerFacts: in a fully expanded diagram every attractor has exactly one owner node, so per-node one-to-one
+seeds give a global one-to-one correspondence (global_one_to_one).  PARTIAL: for block and attractor-seed
+expansion the models (Blocks.v, ASeeds.v) are replayed against the code but the global bijection is decided by
+the verdicts; the source-SCC strategy is not modelled and has the known finding D15.""",
  theorems=[("filter_exact", "filter_exact", "given covering candidates, the filter returns exactly one seed per attractor of the node, and the sets are the attractors"),
            ("filter_exact_seeds_only", "filter_exact_seeds_only", "the seeds_only shortcut (last candidate of a pseudo-minimal node) is sound"),
            ("check_seeds_ok", "check_seeds_ok", "the verdict predicate run on the implementation's output is exact"),
@@ -29,7 +31,9 @@ source-SCC and attractor-seed expansion are not modelled (their seeds are judged
            ("reaches_attractor", "reaches_attractor", "every state reaches an attractor (terminal SCCs exist)"),
            ("attractor_in_percolation", "attractor_in_percolation", "attractors of a trap space stay inside its percolation (seeds lie in the node space)"),
            ("pipeline_then_filter_exact", "pipeline_then_filter_exact", "candidate pipeline + filter = one seed per attractor of the node, given an NFVS"),
-           ("nfvs_reduction", "nfvs_reduction", None)],
+           ("nfvs_reduction", "nfvs_reduction", None),
+           ("owner_exists", "owner_exists", "every attractor has an owner node in the fully expanded diagram"),
+           ("owner_unique", "owner_unique", "... and only one"), ("global_one_to_one", "global_one_to_one", "per-node exactness gives the global bijection")],
  examples=EX_NET + """
 Example C01_example_attractors : length (attractors_b ex_sw) = 4.
 Proof. vm_compute. reflexivity. Qed.
@@ -232,15 +236,17 @@ when the fuel runs out; the theorems give explicit fuel bounds in terms of max_n
 symbolic_test_terminates bounds the interleaved reachability of symbolic_attractor_test (with the progress
 fix 2159c02) for every heuristic tape; noforce_can_stall is the formal record of the repaired defect: without
 the fix a tape that always declines makes the loop run forever on a 3-variable network.
-PARTIAL: the simulation minification loops and the block / SCC strategies are bounded by the back-edge budget
-and the watchdog of the run only.""",
+The candidate pipeline's loops (greedy flips, simulation rounds) and the block expansion have explicit bounds too.
+PARTIAL: the SCC strategy and the attractor-seed expansion are bounded by the back-edge budget and the watchdog only.""",
  theorems=[("size_bound", "size_bound", None), ("bfs_terminates", "bfs_terminates", None), ("dfs_terminates", "dfs_terminates", None),
            ("target_terminates", "target_terminates", None), ("min_terminates", "min_terminates", None),
            ("step_terminates", "step_terminates", None), ("run_terminates", "run_terminates", None),
            ("raise_depth_fuel_irrelevant", "raise_depth_fuel_irrelevant", "depth propagation stops by itself (acyclicity)"),
            ("strict_loop_fuel_enough", "strict_loop_fuel_enough", None),
            ("reach_list_complete", "reach_list_complete", "the reachability worklist finishes within 2^n iterations"),
-           ("block_expansion_terminates", "expand_block_terminates", None), ("symbolic_test_terminates", "symbolic_test_terminates", None), ("unfixed_loop_can_stall", "noforce_can_stall", "defect D6, formally"),
+           ("block_expansion_terminates", "expand_block_terminates", None),
+           ("greedy_loop_terminates", "greedy_loop_fuel_irrelevant", "candidate pipeline: greedy flips"), ("simulation_rounds_terminate", "sim_rounds_fuel_irrelevant", None),
+           ("candidate_pipeline_terminates", "compute_candidates_fuel_irrelevant", None), ("symbolic_test_terminates", "symbolic_test_terminates", None), ("unfixed_loop_can_stall", "noforce_can_stall", "defect D6, formally"),
            ("fixed_loop_answers_on_that_instance", "stall_fixed_answer", None)],
  examples="")
 
@@ -268,10 +274,12 @@ unrestricted BFS/DFS completes to a Hierarchy (bfs_complete / dfs_complete).""",
 
 SPEC["C16"] = dict(title="Serialization and memory reclamation are transparent", comment="""
 Model: OPickle is the identity on the model state (what pickling must be); OReclaim drops the candidate
-tag of nodes whose seeds are known.  PARTIAL: the theorems say reclaim preserves every invariant and
-changes neither structure nor seeds/sets; that Python's pickle and AEON's text round trip reproduce the
-fields is runtime behaviour, decided by running two real diagrams side by side.""",
- theorems=[("reclaim_keeps_wellformed", "reclaim_SWF", None), ("reclaim_CacheOK", "reclaim_CacheOK", None),
+tag of nodes whose seeds are known.  reclaim_transparent: the runs from d and from reclaim d agree op by op on
+results and on everything observable (obs_eq: all fields except candidates of nodes with known seeds).
+PARTIAL: that Python's pickle and AEON's text round trip reproduce the fields is runtime behaviour, decided by
+running two real diagrams side by side.""",
+ theorems=[("reclaim_transparent", "reclaim_transparent", None), ("step_respects_observation", "step_obs_eq", None), ("reclaim_obs_eq", "reclaim_obs_eq", None),
+           ("reclaim_keeps_wellformed", "reclaim_SWF", None), ("reclaim_CacheOK", "reclaim_CacheOK", None),
            ("reclaim_extends", "reclaim_extends", None), ("step_extends", "step_extends", None)],
  examples="")
 
@@ -308,10 +316,10 @@ fresh and in warm processes and comparing complete dumps.""",
 
 SPEC["C20"] = dict(title="Reported diagram metadata is accurate", comment="""
 Model: node ids are list positions (contiguous from the root at 0, len = size); depths are maintained by
-raise_depth; find_node goes through the integer key.  PARTIAL: is_subgraph / is_isomorphic and summary()
-are not modelled; they are decided by recomputation in the run.""",
+raise_depth; find_node goes through the integer key; ObsFacts.is_subgraph_b models is_subgraph (after fix 087feea).
+PARTIAL: summary() is not modelled; it is decided by recomputation in the run.""",
  theorems=[("find_node_exact", "find_node_exact", None), ("find_node_none", "find_node_none", None), ("step_extends", "step_extends", "ids and spaces are stable"),
            ("depth_longest_path_all_histories", "run_DepthOK_all", None), ("depth_longest_path", "depth_longest_path", None),
            ("depth_is_max", "depth_is_max", None), ("depth_attained", "depth_attained", None), ("raise_depth_spec", "raise_depth_spec", None),
-           ("space_key_inj", "space_key_inj", None)],
+           ("space_key_inj", "space_key_inj", None), ("is_subgraph_spec", "is_subgraph_b_spec", "node-set and edge-set inclusion")],
  examples="")
